@@ -43,8 +43,18 @@ func decode(kind string, data []byte) string {
 		for {
 			nrm, vs, err := rd.ReadTriangle()
 			if err == io.EOF {
+				// "io.EOF is returned when the file ended and there are no more triangles to be read": asking
+				// again must give io.EOF again (not data, not a panic)
+				for k := 0; k < 2; k++ {
+					if _, _, err := rd.ReadTriangle(); !errors.Is(err, io.EOF) {
+						return "eof-not-sticky"
+					}
+				}
 				break
 			} else if err != nil {
+				// a caller that asks again after an error: whatever is returned, it must return
+				rd.ReadTriangle()
+				rd.ReadTriangle()
 				return "error"
 			}
 			n++
@@ -64,11 +74,19 @@ func decode(kind string, data []byte) string {
 		for j := 0; j < n; j++ {
 			poly, err := rd.ReadFace()
 			if err != nil {
+				rd.ReadFace() // asking again after an error must return
+				rd.ReadFace()
 				return "error"
 			}
 			fmt.Fprintf(&sb, " %d", len(poly))
 			for _, p := range poly {
 				fmt.Fprintf(&sb, " %s %s %s", codec.H64(p[0]), codec.H64(p[1]), codec.H64(p[2]))
+			}
+		}
+		// "If no more faces exist to be read, io.EOF is returned": also when asked twice
+		for k := 0; k < 2; k++ {
+			if _, err := rd.ReadFace(); err != io.EOF {
+				return "eof-not-sticky"
 			}
 		}
 		if n < 0 {
@@ -135,6 +153,15 @@ func decode(kind string, data []byte) string {
 			if err != nil {
 				if !errors.Is(err, io.EOF) {
 					end = "err"
+					rd.Read() // asking again after an error must return
+					rd.Read()
+				} else if len(rows) == totalRows(&h) {
+					// "If all element rows have been read, io.EOF is returned": also when asked twice
+					for k := 0; k < 2; k++ {
+						if _, _, err := rd.Read(); !errors.Is(err, io.EOF) {
+							return "eof-not-sticky"
+						}
+					}
 				}
 				break
 			}
@@ -256,6 +283,17 @@ func capTrace(n uint32, k int) string {
 		total += d / 16
 	}
 	return fmt.Sprintf("ok %s total %d", strings.Join(parts, ","), total)
+}
+
+// totalRows: the number of rows the header declares (elements with a count <= 0 have none).
+func totalRows(h *ff.PLYHeader) int {
+	n := 0
+	for _, e := range h.Elements {
+		if e.Count > 0 {
+			n += int(e.Count)
+		}
+	}
+	return n
 }
 
 // unboundedEmptyRows: a binary header declaring more than 4096 rows for an element without properties.
